@@ -85,6 +85,42 @@ def ob_symplectic_form(cls):
     return build
 
 
+def ob_channel(d, modes):
+    """deterministic_gaussian_channel: sigma' = E_X sigma E_X^T + hbar E_Y and mu' = E_X mu (as documented), for ALL real
+    X, symmetric Y, states and hbar; in particular sigma' stays symmetric"""
+
+    def build(env):
+        from types import SimpleNamespace
+
+        from piquasso._simulators.gaussian import simulation_steps as steps
+
+        state = env.gaussian_state(d)
+        k = len(modes)
+        X = O(env.rmatrix("ch.X", 2 * k))
+        Y = O(env.rsymmetric("ch.Y", 2 * k))
+        if not env.symbolic:        # the replay hands the step ordinary float arrays, as a user would
+            X, Y = np.real(np.asarray(X, dtype=complex)), np.real(np.asarray(Y, dtype=complex))
+        ins = SimpleNamespace(modes=tuple(modes), _get_all_params=lambda connector: {"X": X, "Y": Y})
+        mean0 = O(state.xpxp_mean_vector).copy()
+        cov0 = O(state.xpxp_covariance_matrix).copy()
+        with st.patched_np(steps, env):
+            steps.deterministic_gaussian_channel(state, ins, shots=1)
+        idx = [i for m in modes for i in (2 * m, 2 * m + 1)]
+        EX = np.identity(2 * d, dtype=object)
+        EY = np.zeros((2 * d, 2 * d), dtype=object)
+        for a, ia in enumerate(idx):
+            for b, ib in enumerate(idx):
+                EX[ia, ib] = X[a, b]
+                EY[ia, ib] = Y[a, b] * env.hbar
+        cov1 = O(state.xpxp_covariance_matrix)
+        C, G = O(state._C), O(state._G)
+        return [cov1, O(state.xpxp_mean_vector), cov1, C, G], [
+            EX @ cov0 @ EX.T + EY, EX @ mean0, cov1.T,
+            C07.env_conj(C).T if env.symbolic else np.conj(np.asarray(C, dtype=complex)).T, G.T]
+
+    return build
+
+
 def obligations(tier):
     obs = {}
     classes = [c for c in C07.gate_classes() if c.__name__ not in C07.MATRIX_GATES and c.NUMBER_OF_MODES]
@@ -97,6 +133,10 @@ def obligations(tier):
         for modes in tuples:
             obs[f"C08/gaussian/invariant-C=C+,G=GT,sigma-real-symmetric/{cls.__name__}/modes=({','.join(map(str, modes))})"] = \
                 ob_gate_keeps_invariant(cls, d, modes)
+    for dd, modes in ((2, (0,)), (2, (1,)), (2, (1, 0)), (3, (2, 0))) if tier == "quick" else (
+            [(2, m) for m in ((0,), (1,), (0, 1), (1, 0))] + [(3, m) for m in itertools.permutations(range(3), 1)]
+            + [(3, m) for m in itertools.permutations(range(3), 2)]):
+        obs[f"C08/gaussian/channel=X.sigma.XT+Y,symmetric/d={dd}/modes=({','.join(map(str, modes))})"] = ob_channel(dd, modes)
     for mode in range(2):
         obs[f"C08/gaussian/displacement-leaves-C,G/mode={mode}"] = ob_displacement_keeps_invariant(2, mode)
     for dd in (1, 2, 3):
@@ -162,6 +202,25 @@ def programs(pq, np_, rng, hbar):
         [pq.DensityMatrix(ket=(1, 1, 0), bra=(1, 1, 0)) * 0.5, pq.DensityMatrix(ket=(0, 2, 0), bra=(0, 2, 0)) * 0.5] + fock_gates, True
     yield "PureFockSimulator(active)", (lambda cut: pq.PureFockSimulator(d=2, config=pq.Config(hbar=hbar, cutoff=cut))), \
         [pq.Vacuum(), pq.Squeezing(r=0.1).on_modes(0), pq.Displacement(r=0.1).on_modes(1), pq.Beamsplitter(theta=0.5).on_modes(0, 1)], False
+    # complex coherences between different photon numbers of the attenuated mode, then loss (density matrix must stay Hermitian)
+    amp = {(0, 1): np_.sqrt(1 / 3), (1, 1): 1j * np_.sqrt(1 / 3), (2, 0): np_.exp(0.7j) * np_.sqrt(1 / 3)}
+    rho = [pq.DensityMatrix(ket=k, bra=b) * (amp[k] * np_.conj(amp[b])) for k in amp for b in amp]
+    yield "FockSimulator(loss, complex coherences)", (lambda cut: pq.FockSimulator(d=2, config=pq.Config(hbar=hbar, cutoff=max(cut, 3)))), \
+        rho + [pq.Attenuator(theta=0.6).on_modes(0), pq.Phaseshifter(phi=0.4).on_modes(1), pq.Attenuator(theta=0.3).on_modes(1)], True
+    # photon-number measurement / post-selection on NON-ASCENDING mode tuples of a state that is not symmetric under the exchange;
+    # shots=None keeps every branch, each of which must be a normalised physical state
+    psi = [pq.StateVector([1, 0, 0]) * np_.sqrt(0.2), pq.StateVector([0, 0, 1]) * (1j * np_.sqrt(0.5)), pq.StateVector([0, 1, 1]) * np_.sqrt(0.3)]
+    for modes in ((2, 0), (1, 0), (2, 0, 1), (0, 2)):
+        yield f"PureFockSimulator(measure {modes})", (lambda cut: pq.PureFockSimulator(d=3, config=pq.Config(hbar=hbar, cutoff=max(cut, 3)))), \
+            psi + [pq.Beamsplitter(theta=0.4, phi=0.3).on_modes(0, 1), pq.ParticleNumberMeasurement().on_modes(*modes)], "shots=None"
+    mixed = [pq.DensityMatrix(ket=k, bra=b) * (c1 * np_.conj(c2))
+             for k, c1 in (((1, 0, 0), np_.sqrt(0.2)), ((0, 0, 1), 1j * np_.sqrt(0.5)), ((0, 1, 1), np_.sqrt(0.3)))
+             for b, c2 in (((1, 0, 0), np_.sqrt(0.2)), ((0, 0, 1), 1j * np_.sqrt(0.5)), ((0, 1, 1), np_.sqrt(0.3)))]
+    for modes in ((2, 0), (2, 0, 1)):
+        yield f"FockSimulator(measure {modes})", (lambda cut: pq.FockSimulator(d=3, config=pq.Config(hbar=hbar, cutoff=max(cut, 3)))), \
+            mixed + [pq.ParticleNumberMeasurement().on_modes(*modes)], "shots=None"
+    yield "PureFockSimulator(postselect (2, 0))", (lambda cut: pq.PureFockSimulator(d=3, config=pq.Config(hbar=hbar, cutoff=max(cut, 3)))), \
+        psi + [pq.PostSelectPhotons(photon_counts=(1, 0)).on_modes(2, 0)], "postselect"
 
 
 def bounded(run):
@@ -195,9 +254,23 @@ def bounded(run):
             for simname, mk, ins, conserving in programs(pq, np, rng, hbar):
                 for cut in cutoffs:
                     ctx["label"] = f"{simname} hbar={hbar} cutoff={cut}"
-                    ctx["conserving"] = conserving
+                    ctx["conserving"] = conserving is True
+                    ctx["mode"] = conserving if isinstance(conserving, str) else None
                     try:
-                        res = mk(cut).execute_instructions([i.copy() for i in ins], shots=1)
+                        res = mk(cut).execute_instructions([i.copy() for i in ins], shots=None if conserving == "shots=None" else 1)
+                        if conserving == "shots=None":
+                            # every branch of an exact run is a normalised physical state and the weights sum to one
+                            w = 0.0
+                            for b in res.branches:
+                                w += float(b.frequency)
+                                if b.state is None:      # every mode was measured
+                                    continue
+                                nrm = float(np.real(b.state.norm))
+                                if abs(nrm - 1.0) > 1e-8:
+                                    raise Broken(f"{ctx['label']}: post-measurement branch {b.outcome} has norm {nrm}")
+                                b.state.validate()
+                            if abs(w - 1.0) > 1e-8:
+                                raise Broken(f"{ctx['label']}: branch weights sum to {w}")
                         ev += 1
                         distinct.add((simname, hbar, cut))
                     except Broken as e:
